@@ -90,6 +90,8 @@ where
 
         let blob_hash = BlobHash::from_bytes(*self.hasher.finalize().as_bytes());
 
+        #[cfg(feature = "verif")]
+        crate::verif::point("commit.before_register", crate::verif::WANT_NONE);
         // Register intent - returns a guard that will cleanup on drop if not committed
         let intent_guard = self
             .cas_inner
@@ -97,6 +99,8 @@ where
             .register_intent(self.key.clone(), IntentMeta { blob_hash, blob_size: self.size })
             .map_err(crate::LibError::Index)?;
 
+        #[cfg(feature = "verif")]
+        crate::verif::point("commit.before_rename", crate::verif::WANT_NONE);
         tracing::debug!(%blob_hash, key = ?self.key, "Committing transaction");
         let _cas_path = self
             .cas_inner
@@ -108,6 +112,8 @@ where
             self.cas_inner.cas_manager.delete_blobs(hashes).map(|_| ())
         };
 
+        #[cfg(feature = "verif")]
+        crate::verif::point("commit.before_apply", crate::verif::WANT_NONE);
         // Commit the intent - this applies the WAL operation and deletes unreferenced blobs
         intent_guard.commit(&delete_fn).map_err(crate::LibError::Index)?;
 
